@@ -19,23 +19,20 @@ def indices(s: slice, length: int) -> tuple[int, int | None, int]:
     return start, stop, step
 
 def offset_slice_indices_lsb0(key: slice, length: int) -> slice:
-    start, stop, step = indices(key, length)
-    if step is not None and step < 0:
-        if stop is None:
-            new_start = start + 1
-            new_stop = None
-        else:
-            first_element = start
-            last_element = start + ((stop + 1 - start) // step) * step
-            new_start = length - last_element
-            new_stop = length - first_element - 1
-    else:
-        first_element = start
-        # The last element will usually be stop - 1, but needs to be adjusted if step != 1.
-        last_element = start + ((stop - 1 - start) // step) * step
-        new_start = length - last_element - 1
-        new_stop = length - first_element
-    return slice(new_start, new_stop, key.step)
+    """Convert a slice using LSB0 indices to the slice using MSB0 indices that selects the same bits (in stored order)."""
+    start, stop, step = key.indices(length)
+    selected = range(start, stop, step)
+    if len(selected) == 0:
+        # An empty slice. Keep it empty, but positioned at the mirror image of where it was (this matters for slice assignment).
+        pos = min(max(length - start, 0), length)
+        return slice(pos, pos, key.step)
+    # Bit i in LSB0 is bit (length - 1 - i) in MSB0, and the order of the selected bits gets reversed too.
+    new_start = length - 1 - selected[-1]
+    new_last = length - 1 - selected[0]
+    if step > 0:
+        return slice(new_start, new_last + 1, key.step)
+    new_stop = new_last - 1
+    return slice(new_start, None if new_stop < 0 else new_stop, key.step)
 
 
 class BitStore:
